@@ -46,10 +46,14 @@ const (
 	ForgeNoSignedData       = "no-signed-data"                      // signedData member removed
 	ForgeSigTruncated       = "sig-truncated"                       // signature shortened by one byte
 	ForgeSigEmpty           = "sig-empty"                           // empty signature segment
+	ForgeTwinKey            = "twin-key-member"                     // signed data names the legitimate key under the exact member name and the attacker's key under a name that differs in case only and comes later (updatekey / recoverykey); signed by the attacker
+	ForgeTwinKeyNegated     = "twin-key-member-negated"             // as twin-key-member, the attacker's key being the inverse point of the legitimate EC key (same kty, crv, x, nonce - only y differs)
+	ForgeTwinKeyFirst       = "twin-key-member-first"               // the attacker's key under a case variant that comes first (UpdateKey / RecoveryKey), signed by the attacker
 )
 
 // AllForges lists the forgery classes applicable to every signed type.
-var AllForges = []string{ForgeSigRandom, ForgeSigForeign, ForgeSigBitflip, ForgePayloadAltered, ForgeRevealMismatch, ForgeOtherKey, ForgeOtherKeyClaim, ForgeMismatchClaimLegit, ForgeMismatchClaimOwn, ForgeNoSignedData, ForgeSigTruncated, ForgeSigEmpty}
+var AllForges = []string{ForgeSigRandom, ForgeSigForeign, ForgeSigBitflip, ForgePayloadAltered, ForgeRevealMismatch, ForgeOtherKey, ForgeOtherKeyClaim, ForgeMismatchClaimLegit, ForgeMismatchClaimOwn, ForgeNoSignedData, ForgeSigTruncated, ForgeSigEmpty,
+	ForgeTwinKey, ForgeTwinKeyNegated, ForgeTwinKeyFirst}
 
 // Invalid-delta variants.
 const (
@@ -323,6 +327,28 @@ func NewSigned(s SignedSpec) *Op {
 		} else {
 			alt.ExtraSigned = map[string]interface{}{"revealValue": asm.Reveal(att, s.Code)}
 		}
+		req = alt.Request()
+		d.Authorised = false
+	case ForgeTwinKey, ForgeTwinKeyNegated, ForgeTwinKeyFirst:
+		// the reveal value and the exactly named key member are the legitimate ones; a second member whose name differs
+		// in case only carries the key that signs
+		twin := att
+		if s.Opt.Forge == ForgeTwinKeyNegated {
+			if n := s.Reveal.Negated(); n != nil {
+				twin = n
+				if s.Reveal.Nonce != "" {
+					twin.Nonce = s.Reveal.Nonce
+				}
+			}
+		}
+		member := map[string]string{"update": "updatekey", "recover": "recoverykey", "deactivate": "recoverykey"}[s.Type]
+		if s.Opt.Forge == ForgeTwinKeyFirst {
+			member = map[string]string{"update": "UpdateKey", "recover": "RecoveryKey", "deactivate": "RecoveryKey"}[s.Type]
+		}
+		alt := *b
+		alt.SignKey = twin
+		alt.Header = nil
+		alt.ExtraSigned = map[string]interface{}{member: twin.JWKMap()}
 		req = alt.Request()
 		d.Authorised = false
 	case ForgeOtherKey:
